@@ -470,14 +470,12 @@ func c06Txtars(cfg Config, c *c06Ctx) {
 	// the seed-independent minimal shapes first: a member that grows by more than the next marker line is long,
 	// followed by an evy member / by a member that is not evy
 	grow := "if true\nif true\nprint \"a\"\nend\nend\n"
-	for _, in := range []c06TxtarInput{
+	c06TxtarBatch(c, []c06TxtarInput{
 		{Kind: "txtar", Members: []c06Member{{"a.evy", grow}, {"b.evy", "print \"b\"\nprint \"done\"\n"}}},
 		{Kind: "txtar", Members: []c06Member{{"a.evy", grow}, {"out.txt", "a\n"}}},
 		{Kind: "txtar", Comment: "c\n", Members: []c06Member{{"a.evy", "x:=1\nprint x"}}},
 		{Kind: "txtar", Members: []c06Member{{"a.evy", "x:=1\nwhile x<3\nx=x+1\nend\n"}, {"some/long/name.evy", "y:=2\nprint y\n"}, {"n", "1\n"}, {"c.evy", "for i:=range 3\nprint i\nend"}}},
-	} {
-		c06TxtarCase(c, in)
-	}
+	})
 	n := cfg.N(140, 2500)
 	maxVariants := cfg.N(60, 1500)
 	var batch []c06TxtarInput
